@@ -12,7 +12,7 @@ from ..world import World
 
 ID = "C12"
 RULE = (
-    "(a) Exhaustive grid: match-type {contains, equals, starts-with, ends-with, absent} x collation {absent, i;ascii-casemap, i;octet, i;unicode-casemap} x negate {yes, no} x 14 needles "
+    "(a) Exhaustive grid: match-type {contains, equals, starts-with, ends-with, absent} x collation {absent, i;ascii-casemap, i;octet, i;unicode-casemap} x negate {yes, no} x 19 needles (five of them beginning or ending with white space) "
     "(equal, prefix, suffix, infix, ASCII/non-ASCII case variants, disjoint, empty, longer than the value, non-ASCII) against an address book of 7 cards, both front ends. (b) Hypothesis-generated address books of 3-8 vCards "
     "(3.0/4.0, ASCII and non-ASCII names, multi-instance EMAIL/TEL with TYPE parameters, NOTE with escapes, ORG/ADR/N structured values used for presence only) and filters from the RFC 6352 10.5 grammar "
     "(test anyof/allof/absent, 0-3 prop-filters with mixed-case names: presence, is-not-defined, one or two text-matches, param-filter with is-not-defined or text-match; optional limit nresults 0/1/2/large). "
@@ -22,7 +22,7 @@ RULE = (
 )
 
 GRID_VALUES = ["John Doe", "Jane Roe", "Zoë Müller", "日本 太郎", "Bob", "alice cooper", "ALICE Cooper"]
-GRID_NEEDLES = ["John Doe", "John", "Doe", "hn D", "JOHN DOE", "joh", "ZOË MÜLLER", "zoë", "xyz", "", "Bobby", "日本 太郎", "ë M", "alice cooper"]
+GRID_NEEDLES = ["John Doe", "John", "Doe", "hn D", "JOHN DOE", "joh", "ZOË MÜLLER", "zoë", "xyz", "", "Bobby", "日本 太郎", "ë M", "alice cooper", "John ", " Doe", " ", "Bob ", " alice"]
 MATCH_TYPES = [None, "contains", "equals", "starts-with", "ends-with"]
 COLLS = [None, "i;ascii-casemap", "i;octet", "i;unicode-casemap"]
 
@@ -191,7 +191,7 @@ def _vals(cards, pname):
 
 @st.composite
 def card_tm(draw, cands):
-    mode = draw(st.sampled_from(["equal", "prefix", "suffix", "infix", "case", "absent"]))
+    mode = draw(st.sampled_from(["equal", "prefix", "suffix", "infix", "case", "absent", "word-edge", "padded"]))
     cands = [c for c in cands if c and "\n" not in c]
     if not cands or mode == "absent":
         text = draw(st.sampled_from(["zzz", "example", "John", "@"]))
@@ -201,6 +201,12 @@ def card_tm(draw, cands):
             text = v
         elif mode == "case":
             text = v.swapcase()
+        elif mode == "word-edge" and " " in v.strip():
+            # a needle that begins or ends with the white space between two words (the text is literal)
+            k = v.index(" ", 1) if " " in v[1:] else 0
+            text = draw(st.sampled_from([v[: k + 1], v[k:], " "]))
+        elif mode == "padded":
+            text = draw(st.sampled_from([" " + v, v + " ", v[:3] + " "]))
         elif mode == "prefix":
             text = v[: draw(st.integers(1, len(v)))]
         elif mode == "suffix":
